@@ -52,7 +52,17 @@ def drive_dag(recipe):
         for o in w2.pipes[0].values:
             o.state()
             lazy.append(w2.gid[o])
-        for name, got in [('a walk with another walk started in its body', outer), ('a walk started inside another', inners[0]),
+        # a DAG that is walked WHILE it is being built (a walk after every added operator): the final walk still visits
+        # every operator once, parents first
+        from eudoxia.workload.pipeline import Pipeline
+        from eudoxia.utils import Priority
+        pb = Pipeline('grown', Priority.QUERY)
+        built, inc = [], None
+        for j, ps in enumerate(dag):
+            built.append(pb.new_operator([built[q] for q in ps] or None))
+            inc = [built.index(o) for o in pb.values]
+        for name, got in [('the walk of a DAG that was walked after every added operator', inc),
+                          ('a walk with another walk started in its body', outer), ('a walk started inside another', inners[0]),
                           ('the left of two side-by-side walks', list(left)), ('the right of two side-by-side walks', list(right)),
                           ('a walk whose body reads operator states', lazy)]:
             if got != order:
